@@ -9,7 +9,9 @@
        core : BOOLEAN, nm : BOOLEAN ]        core-properties part / notes master present
    OBSERVED STATE (what the driver logs after every real call; Trace_Deck judges it):
      obs = [ slides : Seq([sid : STRING, sidOk : BOOLEAN, pname : STRING, pnum : Int,
-                           sh : Seq([id : STRING, pos : BOOLEAN, kind : STRING, name : STRING]),
+                           sh : Seq([id : STRING, pos : BOOLEAN, kind : STRING, name : STRING, lk : STRING, rl : STRING]),
+                                 (lk / rl: where the shape's click action / its first run's hyperlink leads, read from the XML and the
+                                  relationships: "none", "u0", "u1", "u2" (the three URLs the driver uses), "jump", "other:..")
                            rels : Seq([rid, tgt, ext]), refs : Seq(STRING), refsBy : Seq([sh, rid])]),
              parts : Seq(STRING), acc : BOOLEAN ]
    SAVED PACKAGE: the phys record of OpcPackage.tla plus per-part r:* references, judged with OpcPackage operators. *)
@@ -49,10 +51,24 @@ SlideBySid(o, sid) == CHOOSE x \in SeqSet(o.slides) : x.sid = sid
 Sids(o) == [i \in DOMAIN o.slides |-> o.slides[i].sid]
 IdStrs(sl) == [i \in DOMAIN sl.sh |-> sl.sh[i].id]
 Adds == {"addSlide", "addShape", "addPicture", "addMovie", "addChart", "addOle", "notes", "setLink", "setJump", "insertPh"}
+\* what a link operation makes the targeted shape lead to; every other shape's links stay what they were
+LinkOpsAll == {"setLink", "changeLink", "clearLink", "setJump", "clearJump", "setRunLink", "clearRunLink", "setHover"}
+ExpLk(op, old) == CASE op = "setLink" -> "u0" [] op = "changeLink" -> "u1" [] op = "clearLink" -> "none" [] op = "setJump" -> "jump"
+                    [] op = "clearJump" -> "none" [] OTHER -> old
+ExpRl(op, old) == CASE op = "setRunLink" -> "u0" [] op = "clearRunLink" -> "none" [] op = "setHover" -> "u2" [] OTHER -> old
 StepNames == <<"NewShapeIdsFresh", "NewSlideIdFresh", "SlideIdsStable", "RidsUniquePerSource", "RidsNotReassigned",
-               "PartNamesUnique", "SlidesNamedInOrderOnceAccessed", "LookupStable">>
+               "PartNamesUnique", "SlidesNamedInOrderOnceAccessed", "LookupStable", "LinksAsSet">>
 StepHolds(n, s, a, t) ==
-  CASE n = "NewShapeIdsFresh" ->
+  CASE n = "LinksAsSet" ->
+         \* every shape present before the step leads where it led, except the targeted one, which leads where the operation says
+         (a.op \notin {"reopen", "open"}) =>
+           \A k \in DOMAIN s.slides : k \in DOMAIN t.slides =>
+             \A i \in DOMAIN s.slides[k].sh : i \in DOMAIN t.slides[k].sh /\ t.slides[k].sh[i].id = s.slides[k].sh[i].id =>
+               LET o == s.slides[k].sh[i]  n2 == t.slides[k].sh[i]
+                   mine == a.op \in LinkOpsAll /\ a.k = k /\ a.tid = o.id
+               IN /\ n2.lk = (IF mine THEN ExpLk(a.op, o.lk) ELSE o.lk)
+                  /\ n2.rl = (IF mine THEN ExpRl(a.op, o.rl) ELSE o.rl)
+    [] n = "NewShapeIdsFresh" ->
          \A k \in DOMAIN t.slides :
            LET tl == t.slides[k]
                old == IF tl.sid \in SeqSet(Sids(s)) THEN IdStrs(SlideBySid(s, tl.sid)) ELSE <<>>
@@ -80,7 +96,9 @@ StepHolds(n, s, a, t) ==
          (a.op \in Adds /\ a.op # "insertPh") =>
            \A k \in DOMAIN s.slides : \A i \in DOMAIN s.slides[k].sh :
               CountIn(IdStrs(s.slides[k]), s.slides[k].sh[i].id) = 1 =>
-                 \E j \in DOMAIN t.slides[k].sh : t.slides[k].sh[j] = s.slides[k].sh[i]
+                 \E j \in DOMAIN t.slides[k].sh : /\ t.slides[k].sh[j].id = s.slides[k].sh[i].id
+                                                  /\ t.slides[k].sh[j].kind = s.slides[k].sh[i].kind
+                                                  /\ t.slides[k].sh[j].name = s.slides[k].sh[i].name
 StepFailing(s, a, t) == {StepNames[i] : i \in {j \in DOMAIN StepNames : ~StepHolds(StepNames[j], s, a, t)}}
 
 \* ============================================================ clauses on a SAVED package (C02)
